@@ -41,6 +41,15 @@ func c12Cells(full bool) []lat {
 			out = append(out, lat{Enc: e.e, KeyLen: e.k, Comp: true, Label: "L", PeerPMax: 5, IPNames: false})
 		}
 	}
+	// an application transport that is not node-aware (the library's shim drops node names, the label
+	// wrapper's plain WriteTo/DialTimeout carry the traffic)
+	for _, e := range []ek{{"off", 0}, {"v1", 16}, {"v0", 32}} {
+		for _, lb := range []string{"", "L"} {
+			for _, pm := range []uint8{4, 5} {
+				out = append(out, lat{Enc: e.e, KeyLen: e.k, Comp: true, Label: lb, PeerPMax: pm, IPNames: pm == 5, Plain: true})
+			}
+		}
+	}
 	// the documented roll-out stage: one side already holds a key but neither seals nor insists on sealed
 	// traffic, the other side still speaks plaintext (with and without the checksum header in front)
 	for _, ipn := range []bool{true, false} {
@@ -333,6 +342,34 @@ func runC12Cell(t *testing.T, l lat, rep *Report, boundaryOnly bool) (fails []c1
 				checkPeel("user-best-effort", append([]byte{ml.VUserMsg}, pl...), true)
 				if r.D.NumMsgs() != before+1 || !bytes.Equal(r.D.Msgs[len(r.D.Msgs)-1], pl) {
 					fail("user-best-effort", "payload of %d bytes (compressible=%v): delegate received %d messages, last %d bytes", n, comp, r.D.NumMsgs()-before, lastLen(r.D.Msgs))
+				}
+			}
+		}
+		// ---- 6b: the other public entry points for user messages (address-only, with a node name, the
+		// deprecated aliases): same obligations as SendBestEffort / SendReliable
+		for _, n := range []int{1, 16, 17, 47, 1400} {
+			pl := payloadOf(n, n%2 == 1)
+			apis := []struct {
+				name string
+				send func() error
+			}{
+				{"SendToAddress(addr)", func() error { return s.M.SendToAddress(ml.Address{Addr: rAddr}, pl) }},
+				{"SendToAddress(addr,name)", func() error { return s.M.SendToAddress(ml.Address{Addr: rAddr, Name: r.Name}, pl) }},
+				{"SendTo", func() error { return s.M.SendTo(r.Addr, pl) }},
+				{"SendToUDP", func() error { return s.M.SendToUDP(p.nodeOf(r), pl) }},
+				{"SendToTCP", func() error { return s.M.SendToTCP(p.nodeOf(r), pl) }},
+			}
+			for _, api := range apis {
+				before := r.D.NumMsgs()
+				p.Tap = nil
+				err := api.send()
+				settle()
+				cases++
+				if api.name != "SendToTCP" {
+					checkPeel("user-api:"+api.name, append([]byte{ml.VUserMsg}, pl...), api.name == "SendToUDP")
+				}
+				if err != nil || r.D.NumMsgs() != before+1 || !bytes.Equal(r.D.Msgs[len(r.D.Msgs)-1], pl) {
+					fail("user-api:"+api.name, "payload of %d bytes: err=%v, delegate received %d messages, last %d bytes", n, err, r.D.NumMsgs()-before, lastLen(r.D.Msgs))
 				}
 			}
 		}
